@@ -57,6 +57,7 @@ class Ctx(object):
         self.solver_s = 0.0
         self.notes = []
         self.hints_used = 0
+        self.calls = []             # (contract name, case, env, result) of callee contracts used on this path
 
     # -- assumptions -------------------------------------------------------
     def add(self, *facts):
